@@ -16,7 +16,8 @@ CONSTANTS Mode,       \* "bytes" | "utf8" | "dec"
           TD(_),      \* <- ToDec
           NT(_),      \* <- NumText
           NTL(_, _),  \* <- NumTextLoc
-          CV(_, _, _) \* <- Convert
+          CV(_, _, _), \* <- Convert
+          RV(_, _, _) \* <- ReadVec
 
 VARIABLE inp
 
@@ -64,13 +65,23 @@ InitUtf8 ==
   \/ \E cp \in Near(CpBoundaries, 3) : IsScalar(cp) /\ inp = [k |-> "cp", cp |-> cp]
   \/ \E a \in PairSet, b \in PairSet : inp = [k |-> "pair", a |-> a, b |-> b]
 
+\* sequences of one or two small vectors, every separator before every value, optionally after an int
+SeqVals == {NumOfInt(-1), NumOfInt(0), NumOfInt(12)}
+SeqVecs == {<<a>> : a \in SeqVals} \cup {<<a, b>> : a \in SeqVals, b \in SeqVals}
+SeqSeps == {<<>>, <<32>>, <<10>>, <<9, 32>>, <<32, 10, 32>>}
+InitVecSeq ==
+  \/ \E v \in SeqVecs, s \in SeqSeps, lead \in {0, 1} :
+        inp = [k |-> "vecseq", vecs |-> <<v>>, seps |-> <<s>>, lead |-> lead]
+  \/ \E v \in SeqVecs, w \in SeqVecs, s \in SeqSeps, u \in SeqSeps, lead \in {0, 1} :
+        inp = [k |-> "vecseq", vecs |-> <<v, w>>, seps |-> <<s, u>>, lead |-> lead]
+
 InitDec ==
   \/ \E v \in (-DecRange)..DecRange : inp = [k |-> "int", v |-> v]
   \/ \E v \in IntBoundaries : inp = [k |-> "int", v |-> v] \/ inp = [k |-> "int", v |-> -v]
   \/ \E s \in {0, 1}, d \in [1..4 -> Sample5] : d # <<0, 0, 0, 0>> /\ inp = [k |-> "big", x |-> [s |-> s, m |-> Strip(d)]]
   \/ \E s \in {0, 1}, d \in [1..8 -> Sample3] : d # <<0, 0, 0, 0, 0, 0, 0, 0>> /\ inp = [k |-> "big", x |-> [s |-> s, m |-> Strip(d)]]
 
-Init == CASE Mode = "bytes" -> InitBytes [] Mode = "utf8" -> InitUtf8 [] Mode = "dec" -> InitDec
+Init == CASE Mode = "bytes" -> InitBytes [] Mode = "utf8" -> InitUtf8 [] Mode = "dec" -> InitDec [] Mode = "vecseq" -> InitVecSeq
 Next == UNCHANGED inp
 Spec == Init /\ [][Next]_inp
 
@@ -153,6 +164,16 @@ ASSUME /\ Utf8DecodeStr(<<237, 160, 128>>).st = DInvalid        \* U+D800
        /\ Utf8DecodeStr(<<128>>).st = DInvalid
        /\ Utf8DecodeStr(<<255>>).st = DInvalid
        /\ Utf8DecodeStr(<<>>) = [st |-> DOk, w |-> <<>>]
+
+(* ---- law: vector / dim output followed by input on ONE stream.  Whatever white space separates
+   the values (and an int in front), reading them back in order yields them all *)
+LawVecSeq ==
+  inp.k = "vecseq" =>
+    LET leadText == IF inp.lead = 1 THEN <<53>> ELSE <<>>
+        t == leadText \o WriteSeq(inp.seps, inp.vecs)
+        start == IF inp.lead = 1 THEN ReadNum(t, 0).p ELSE 0
+    IN ReadSeqFrom(RV, t, start, [i \in 1..Len(inp.vecs) |-> Len(inp.vecs[i])], FALSE, <<>>)
+         = [i \in 1..Len(inp.vecs) |-> [ok |-> TRUE, ys |-> inp.vecs[i]]]
 
 (* ---- laws: decimal under a numpunct facet *)
 LocNum == IF inp.k = "int" THEN NumOfInt(inp.v) ELSE inp.x
